@@ -4,6 +4,8 @@ func extraCommand(name string, args []string) bool {
 	switch name {
 	case "ordinals":
 		cmdOrdinals(args)
+	case "sim":
+		cmdSim(args)
 	default:
 		return false
 	}
